@@ -315,7 +315,7 @@ def run(ctx):
             srv = cfg['servers'][0]
             if cont:
                 ctx.case(('install-continue', trial))
-                ka = [f for f in srv.frames if f[0] == 'play']
+                ka = [f for f in srv.frames if f[0] == 'play' and f[1] == 0x0F]
                 if excs18 or type(conn.reactor).__name__ != 'PlayingReactor' or not ka or \
                         ka[0][2] != (77 + trial).to_bytes(8, 'big') or not ka[0][3]:
                     ctx.violation('the server continues encrypted right after the encryption response (success, keep-alive %d): '
